@@ -77,29 +77,70 @@ def main():
                 return True      # a matcher that cannot judge the sample: stay on the safe side
         return False
 
-    DIM_KEYS = ("dim", "dims", "axis", "start_dim", "end_dim", "dim0", "dim1", "dim1", "dim2")
+    DIM_KEYS = ("dim", "dims", "axis", "start_dim", "end_dim", "dim0", "dim1", "dim2")
+    per_kind = int(cfg.get("per_kind", 2))
 
-    def perturbations(sample):
-        """[(tag, kwargs)]: the sample as is, and with integer dim-like kwargs written as dim - rank"""
-        out = [("as-is", dict(sample.kwargs))]
-        x = sample.input
-        if not isinstance(x, torch.Tensor) or x.dim() == 0:
-            return out
-        kw = dict(sample.kwargs)
-        changed = False
-        for k in DIM_KEYS:
-            v = kw.get(k)
-            if isinstance(v, bool):
-                continue
-            if isinstance(v, int) and 0 <= v < x.dim():
-                kw[k] = v - x.dim()
-                changed = True
-            elif isinstance(v, (list, tuple)) and v and all(isinstance(q, int) and not isinstance(q, bool) and 0 <= q < x.dim() for q in v):
-                kw[k] = type(v)(q - x.dim() for q in v)
-                changed = True
-        if changed:
-            out.append(("negative-dim", kw))
+    def is_int(v):
+        return isinstance(v, int) and not isinstance(v, bool)
+
+    def variants_of(sample):
+        """Generic perturbations of one OpInfo sample: [(tag, input, args, kwargs)].  Every variant is judged against torch
+        eager on the SAME perturbed arguments (torch refusing it just drops the variant), so any of them is a legitimate
+        differential case; they aim at what sample lists tend to leave out: negative dims, extents that differ from each
+        other, per-dimension sequences with unequal entries, negative integer arguments."""
+        x, args, kw = sample.input, list(sample.args), dict(sample.kwargs)
+        out = []
+        if isinstance(x, torch.Tensor) and x.dim() > 0:
+            k2, changed = dict(kw), False
+            for k in DIM_KEYS:
+                v = k2.get(k)
+                if is_int(v) and 0 <= v < x.dim():
+                    k2[k] = v - x.dim()
+                    changed = True
+                elif isinstance(v, (list, tuple)) and v and all(is_int(q) and 0 <= q < x.dim() for q in v):
+                    k2[k] = type(v)(q - x.dim() for q in v)
+                    changed = True
+            if changed:
+                out.append(("negative-dim", x, args, k2))
+        if isinstance(x, torch.Tensor) and x.dim() >= 2:
+            sh = list(x.shape)
+            new = [e + (len(sh) - 1 - i) if e >= 2 else e for i, e in enumerate(sh)]
+            if new != sh:
+                g = torch.Generator().manual_seed(7)
+                if x.dtype.is_floating_point:
+                    x2 = (torch.rand(new, generator=g) * 8 - 4).to(x.dtype)
+                elif x.dtype == torch.bool:
+                    x2 = torch.rand(new, generator=g) > 0.5
+                else:
+                    x2 = torch.randint(0 if x.dtype == torch.uint8 else -8, 9, new, generator=g).to(x.dtype)
+                out.append(("distinct-extents", x2, args, kw))
+        # sequences of equal ints -> last entry changed; positive ints -> negated (keyword and positional arguments)
+        slots = [("kw:" + k, v) for k, v in kw.items()] + [(f"arg{i}", v) for i, v in enumerate(args)]
+        for name, v in slots:
+            def put(val, name=name):
+                if name.startswith("kw:"):
+                    k3 = dict(kw)
+                    k3[name[3:]] = val
+                    return x, args, k3
+                a3 = list(args)
+                a3[int(name[3:])] = val
+                return x, a3, kw
+            if isinstance(v, (list, tuple)) and len(v) >= 2 and all(is_int(q) for q in v) and len(set(v)) == 1 and v[0] >= 0:
+                for delta in (-1, 1):
+                    if v[-1] + delta >= 0:
+                        out.append((f"unequal-entries:{name}:{delta:+d}",) + put(type(v)(list(v[:-1]) + [v[-1] + delta])))
+            elif is_int(v) and v >= 1 and name[3:] not in DIM_KEYS:
+                out.append((f"negated:{name}",) + put(-v))
         return out
+
+    def dtypes_for_perturbation(op, fn):
+        for dt in dtypes:
+            try:
+                if op.supports_dtype(dt, "cpu") and C.dtype_op_schema_compatible(dt, fn.op_signature):
+                    return dt
+            except Exception:
+                pass
+        return None
 
     ran = 0
     by_status = {}
@@ -136,22 +177,59 @@ def main():
                     samples = []
                     for s in op.sample_inputs("cpu", dtype, requires_grad=False):
                         samples.append(s)
-                        if len(samples) >= per_op:
+                        if len(samples) >= 300:
                             break
                 except Exception:
                     by_status["sample-generation-failed"] = by_status.get("sample-generation-failed", 0) + 1
                     continue
+                if not samples:
+                    continue
                 n_ops += 1
                 rtol, atol = info.get_tolerance(dtype)
-                for si, sample in enumerate(samples):
-                    if sample_expected_failure(info.op_info_name, sample, dtype):
-                        by_status["listed-sample"] = by_status.get("listed-sample", 0) + 1
-                        continue
-                    # raw ATen / prims entry points do not validate their arguments (a negative dim can crash torch itself)
-                    perts = perturbations(sample) if not info.op_info_name.startswith(("ops.", "_")) else [("as-is", dict(sample.kwargs))]
-                    for tag, kw in perts:
+                listed = [sample_expected_failure(info.op_info_name, smp, dtype) for smp in samples]
+                by_status["listed-sample"] = by_status.get("listed-sample", 0) + sum(listed)
+                # as is: `per_op` samples spread evenly over the whole sample list (the first and the last included)
+                n = len(samples)
+                idx = sorted({round(j * (n - 1) / max(1, per_op - 1)) for j in range(per_op)}) if n > per_op else list(range(n))
+                runs = [(si, "as-is", samples[si].input, list(samples[si].args), dict(samples[si].kwargs)) for si in idx if not listed[si]]
+                # perturbed: per kind of perturbation the first `per_kind` samples it applies to and torch accepts.
+                # raw ATen / prims entry points do not validate their arguments (a negative dim can crash torch itself): as is only
+                if not info.op_info_name.startswith(("ops.", "_")) and dtype == dtypes_for_perturbation(op, fn):
+                    from torch.testing._internal.opinfo import core as opinfo_core
+                    cands = {}
+                    for si, smp in enumerate(samples):
+                        if listed[si]:
+                            continue
+                        for tag, x2, a2_, k2_ in variants_of(smp):
+                            kind = tag.rsplit(":", 1)[0] if tag.startswith("unequal") else tag
+                            cands.setdefault(kind, []).append((si, tag, x2, a2_, k2_))
+
+                    def spread(lst, k):
+                        if len(lst) <= k:
+                            return lst
+                        return [lst[i] for i in sorted({round(j * (len(lst) - 1) / max(1, k - 1)) for j in range(k)})]
+
+                    for kind in sorted(cands):
+                        accepted = []
+                        for si, tag, x2, a2_, k2_ in spread(cands[kind], 8 * per_kind):
+                            try:
+                                op(x2, *a2_, **k2_)
+                            except Exception:
+                                by_status["torch-refuses"] = by_status.get("torch-refuses", 0) + 1
+                                continue
+                            try:          # the repository's per-sample skip/xfail matchers also judge the perturbed sample
+                                if sample_expected_failure(info.op_info_name, opinfo_core.SampleInput(x2, args=tuple(a2_), kwargs=k2_), dtype):
+                                    by_status["listed-sample"] = by_status.get("listed-sample", 0) + 1
+                                    continue
+                            except Exception:
+                                continue
+                            accepted.append((si, tag, x2, a2_, k2_))
+                        # spread over the sample list (first and last included), not the first few
+                        runs.extend(spread(accepted, per_kind))
+                for si, tag, xin, args_, kw in runs:
+                    if True:
                         key_base = f"{info.op_info_name}|{variant}|{fname}|{str(dtype).replace('torch.', '')}|{si}|{tag}"
-                        inputs = (sample.input, *sample.args)
+                        inputs = (xin, *args_)
                         try:
                             torch_output = op(*inputs, **kw)
                         except Exception:
